@@ -13,6 +13,8 @@ def run_cases(chk, binp, cases, pf_ok, pf):
     out = P.run_histories(binp, cases)
     byid = {c["id"]: c for c in cases}
     ncalls = sum(r["ncalls"] for r in out)
+    for r in [r for r in out if r.get("crash")][:2]:
+        chk.violation("a call through the recycling entry points took the whole process down (%s)" % r["crash"], {"case": byid[r["id"]], "detail": r.get("detail", "")[-600:]})
     bad = [r for r in out if r["double_redeems"] or r["diffs"]]
     kinds = {}
     leaks = {}
